@@ -138,4 +138,204 @@ theorem writer_mem_reach {c0 c : Cfg St Thread} (hw : Thread.writer ∈ c0.2) (h
   · subst h
     exact Or.inr (Or.inl (mem_step_writer.mp hm).1.symm)
   · exact Or.inr (Or.inr h)
+/-! ### Ranked waits-for: Once → startStopMutex → WaitGroup / queue → writer goroutine
+
+Every way a call can block, as a "lock class" with a rank; whoever blocks at rank `r` waits for a thread that
+can move or that blocks at a strictly lower rank; the writer goroutine (rank 0) can always move while anybody
+waits for it.  In particular the `Once` of `autoStartOnce` is a lock class above `startStopMutex`: the thread
+inside the Once body may wait for the mutex, a holder of the mutex never waits for the Once. -/
+
+def Enabled (s : St) (t : Thread) : Prop := step s t ≠ []
+
+/-- rank 3: a later `Enqueue` waiting for the first one to finish the `Once` body -/
+def BlockedOnOnce (s : St) : Thread → Prop
+  | .prod _ pc _ _ => pc = .onceChk ∧ (s.once = 1 ∨ s.once = 2)
+  | _ => False
+
+/-- rank 2: waiting for `startStopMutex` (the first `Enqueue` inside the Once body, or a Stop caller) -/
+def BlockedOnMutex (s : St) : Thread → Prop
+  | .prod _ pc _ _ => pc = .startLock ∧ s.mu = true
+  | .stopper _ pc => pc = .lock ∧ s.mu = true
+  | _ => False
+
+/-- rank 1: Stop inside `writeWg.Wait()` -/
+def BlockedOnWait (s : St) : Thread → Prop
+  | .stopper _ pc => pc = .wait ∧ s.wg ≠ 0
+  | _ => False
+
+/-- rank 1: `Enqueue` on the full queue -/
+def BlockedOnQueue (s : St) : Thread → Prop
+  | .prod _ pc _ _ => pc = .send ∧ ¬ s.queue.length < s.qsize
+  | _ => False
+
+/-- Nothing else blocks: an unfinished thread can move or is blocked in one of the four ways. -/
+theorem blocked_classes (s : St) (t : Thread) (hle : s.once ≤ 3) (hnf : t.finished = false) :
+    Enabled s t ∨ BlockedOnOnce s t ∨ BlockedOnMutex s t ∨ BlockedOnWait s t ∨ BlockedOnQueue s t := by
+  cases t with
+  | prod id pc cur sc =>
+    cases pc
+    case idle =>
+      cases sc with
+      | nil => simp [Thread.finished] at hnf
+      | cons o rest => left; simp [Enabled, step, stepProd]
+    case onceChk =>
+      by_cases h0 : s.once = 0
+      · left; simp [Enabled, step, stepProd, h0]
+      · by_cases h3 : s.once = 3
+        · left; simp [Enabled, step, stepProd, h3]
+        · right; left; exact ⟨rfl, by omega⟩
+    case startLock =>
+      cases hm : s.mu
+      · left; simp [Enabled, step, stepProd, hm]
+      · right; right; left; exact ⟨rfl, hm⟩
+    case send =>
+      by_cases hq : s.queue.length < s.qsize
+      · left; simp [Enabled, step, stepProd, hq]
+      · right; right; right; right; exact ⟨rfl, hq⟩
+    all_goals (left; simp only [Enabled, step, stepProd]; (repeat' split) <;> simp)
+  | stopper id pc =>
+    cases pc
+    case lock =>
+      cases hm : s.mu
+      · left; simp [Enabled, step, stepStop, hm]
+      · right; right; left; exact ⟨rfl, hm⟩
+    case wait =>
+      by_cases hw : s.wg = 0
+      · left; simp [Enabled, step, stepStop, hw]
+      · right; right; right; left; exact ⟨rfl, hw⟩
+    case fin => simp [Thread.finished] at hnf
+    all_goals (left; simp only [Enabled, step, stepStop]; (repeat' split) <;> simp)
+  | flusher l n =>
+    cases n with
+    | zero => simp [Thread.finished] at hnf
+    | succ n => left; cases l <;> simp only [Enabled, step, stepFlush] <;> (repeat' split) <;> simp
+  | writer => simp [Thread.finished] at hnf
+  | obs sc =>
+    cases sc with
+    | nil => simp [Thread.finished] at hnf
+    | cons o rest => left; simp [Enabled, step, stepObs]
+
+theorem two_le_countP (p : Thread → Bool) (l : List Thread) (u t : Thread) (hu : u ∈ l) (ht : t ∈ l) (hne : u ≠ t)
+    (pu : p u = true) (pt : p t = true) : 2 ≤ l.countP p := by
+  induction l with
+  | nil => simp at hu
+  | cons a l ih =>
+    simp only [List.countP_cons]
+    rcases List.mem_cons.mp hu with rfl | hu' <;> rcases List.mem_cons.mp ht with rfl | ht'
+    · exact (hne rfl).elim
+    · have := one_le_countP_of_mem p l t ht' pt; simp only [pu, if_true]; omega
+    · have := one_le_countP_of_mem p l u hu' pu; simp only [pt, if_true]; omega
+    · have := ih hu' ht'; omega
+
+theorem writer_enabled_of (s : St) (h1 : s.wpc ≠ .exited) (h2 : s.spawned = true) : Enabled s .writer := by
+  intro h
+  rcases writer_stuck h with ⟨_, hs⟩ | he
+  · simp [h2] at hs
+  · exact h1 he
+
+/-- rank 1 → rank 0 -/
+theorem wait_has_writer {c : Cfg St Thread} (hi : Inv c) (t : Thread) (ht : t ∈ c.2) (hb : BlockedOnWait c.1 t) :
+    Enabled c.1 .writer := by
+  obtain ⟨s, ts⟩ := c
+  obtain ⟨hc, hwo, hws, hl, hn, hti, _⟩ := hi
+  simp only at hc hl ht hb ⊢
+  cases t with
+  | stopper id pc =>
+    obtain ⟨rfl, hw⟩ := hb
+    have h2 := hl.wg
+    have ha : s.added = true ∧ s.wpc ≠ .exited := by
+      by_cases ha : s.added = true ∧ s.wpc ≠ .exited
+      · exact ha
+      · simp [ha] at h2; exact (hw h2).elim
+    refine writer_enabled_of s ha.2 ?_
+    cases hs : s.spawned
+    · exfalso
+      have h1 := hc.go
+      simp [ha.1, hs] at h1
+      obtain ⟨u, hu, hp⟩ := exists_of_countP_pos atGo ts (by omega)
+      have hne : u ≠ Thread.stopper id .wait := by
+        intro e; subst e; simp [atGo] at hp
+      have hgo : holdsMu u = true := by
+        cases u with
+        | prod i pc cur sc => simp [atGo] at hp; subst hp; simp [holdsMu]
+        | _ => simp [atGo] at hp
+      have := two_le_countP holdsMu ts u _ hu ht hne hgo (by simp [holdsMu])
+      have hm := hc.mu
+      split at hm <;> omega
+    · rfl
+  | _ => exact hb.elim
+
+/-- rank 1 → rank 0 -/
+theorem queue_has_writer {c : Cfg St Thread} (hi : Inv c) (t : Thread) (ht : t ∈ c.2) (hb : BlockedOnQueue c.1 t) :
+    Enabled c.1 .writer := by
+  obtain ⟨s, ts⟩ := c
+  obtain ⟨hc, hwo, hws, hl, hn, hti, _⟩ := hi
+  simp only at hc hl hti ht hb ⊢
+  cases t with
+  | prod id pc cur sc =>
+    obtain ⟨rfl, _⟩ := hb
+    have h2 := hti _ ht
+    simp only [TInv] at h2
+    have hsp := hl.once3_spawned (h2.2.2.2.2.1 (by simp))
+    refine writer_enabled_of s ?_ hsp
+    intro hex
+    have hz := hl.fin_win (Or.inr hex)
+    have hwn := hc.win
+    have hpos : 0 < ts.countP inWin := List.countP_pos_iff.mpr ⟨_, ht, by simp [inWin]⟩
+    omega
+  | _ => exact hb.elim
+
+/-- rank 2 → rank ≤ 1 -/
+theorem mutex_has_holder {c : Cfg St Thread} (hi : Inv c) (hmu : c.1.mu = true) :
+    ∃ u ∈ c.2, holdsMu u = true ∧ (Enabled c.1 u ∨ BlockedOnWait c.1 u) := by
+  obtain ⟨s, ts⟩ := c
+  have hc := hi.cnt
+  simp only at hc hmu ⊢
+  have h0 := hc.mu
+  simp [hmu] at h0
+  obtain ⟨u, hu, hp⟩ := exists_of_countP_pos holdsMu ts (by omega)
+  refine ⟨u, hu, hp, ?_⟩
+  cases u with
+  | prod id pc cur sc =>
+    left
+    cases pc <;> simp [holdsMu] at hp <;> simp only [Enabled, step, stepProd] <;> (repeat' split) <;> simp
+  | stopper id pc =>
+    cases pc <;> simp [holdsMu] at hp
+    case wait =>
+      by_cases hw : s.wg = 0
+      · left; simp [Enabled, step, stepStop, hw]
+      · right; exact ⟨rfl, hw⟩
+    all_goals (left; simp only [Enabled, step, stepStop]; (repeat' split) <;> simp)
+  | _ => simp [holdsMu] at hp
+
+/-- rank 3 → rank ≤ 2 -/
+theorem once_has_body {c : Cfg St Thread} (hi : Inv c) (ho : c.1.once = 1 ∨ c.1.once = 2) :
+    ∃ u ∈ c.2, (bodyPre u = true ∨ bodyPost u = true) ∧ (Enabled c.1 u ∨ BlockedOnMutex c.1 u) := by
+  obtain ⟨s, ts⟩ := c
+  have hc := hi.cnt
+  simp only at hc ho ⊢
+  rcases ho with h1 | h2
+  · have h0 := hc.pre
+    simp [h1] at h0
+    obtain ⟨u, hu, hp⟩ := exists_of_countP_pos bodyPre ts (by omega)
+    refine ⟨u, hu, Or.inl hp, ?_⟩
+    cases u with
+    | prod id pc cur sc =>
+      cases pc <;> simp [bodyPre] at hp
+      case startLock =>
+        cases hm : s.mu
+        · left; simp [Enabled, step, stepProd, hm]
+        · right; exact ⟨rfl, hm⟩
+      all_goals (left; simp only [Enabled, step, stepProd]; (repeat' split) <;> simp)
+    | _ => simp [bodyPre] at hp
+  · have h0 := hc.post
+    simp [h2] at h0
+    obtain ⟨u, hu, hp⟩ := exists_of_countP_pos bodyPost ts (by omega)
+    refine ⟨u, hu, Or.inr hp, ?_⟩
+    cases u with
+    | prod id pc cur sc =>
+      left
+      cases pc <;> simp [bodyPost] at hp <;> simp only [Enabled, step, stepProd] <;> (repeat' split) <;> simp
+    | _ => simp [bodyPost] at hp
+
 end Hive.BatchWriter
